@@ -103,8 +103,8 @@ def monotone(ctx, rule):
                 return atoms[known_atoms[t[1][:-6]]] or None  # a match object or None
             if t[0] == "method" and t[1] == "match" and t[2][0] == "global" and t[2][1] in known_atoms:
                 return atoms[known_atoms[t[2][1]]] or None
-            if t[0] == "method" and t[1] == "match" and t[2][0] == "phi":
-                g = F.simplify(t[2], opts)
+            if t[0] == "method" and t[1] == "match" and P.strip_inl(t[2])[0] == "phi":
+                g = F.simplify(P.strip_inl(t[2]), opts)
                 if g[0] == "global" and g[1] in known_atoms:
                     return atoms[known_atoms[g[1]]] or None
             if t[0] == "call" and t[1] == "builtins.bool" and len(t[2]) == 1:
